@@ -17,6 +17,12 @@ Definition f64_mul (x y : f64) : f64 := b64_mult mode_NE x y.
 Definition f64_div (x y : f64) : f64 := b64_div mode_NE x y.
 Definition f64_neg (x : f64) : f64 := b64_opp x.
 Definition f64_abs (x : f64) : f64 := b64_abs x.
+Definition f64_sign_neg (x : f64) : bool :=
+  match x with
+  | B754_zero _ _ s | B754_infinity _ _ s => s
+  | B754_nan _ _ s _ _ => s
+  | B754_finite _ _ s _ _ _ => s
+  end.
 Definition f64_cmp (x y : f64) : option comparison := b64_compare x y.
 Definition f64_eqb (x y : f64) : bool :=
   match f64_cmp x y with Some Eq => true | _ => false end.
@@ -38,6 +44,7 @@ Definition F64 : Amount := {|
   a_div := fun x y => Ok (f64_div x y);
   a_neg := f64_neg;
   a_abs := f64_abs;
+  a_sign_neg := f64_sign_neg;
   a_eqb := f64_eqb;
   a_cmp := f64_cmp;
   a_of_lit := f64_of_lit;
